@@ -49,6 +49,42 @@ def gen_rt(rng, tier, kinds):
         yield dict(t="rt", code=25, rc=86, sd=69, et=48, ev=5, payload=bytes(n).hex(), rest="")
 
 
+def gen_rtseq(rng, tier, kinds):
+    """what is written to a shared bus: several serialised frames one after the other, frames addressed to other devices
+    (whose bodies contain start delimiters, header-shaped runs, whole embedded frames addressed to us) in between.
+    Every frame addressed to us / broadcast from a known device must read back, in order, unchanged."""
+    quick = tier == "quick"
+    codes = [c for c, _ in kinds]
+
+    def one(own):
+        r = rng.random()
+        if r < 0.35:
+            pl = fg.salted_payload(rng, rng.choice([1, 2, 3, 8, rng.randint(1, 40)]))
+        elif r < 0.5:   # a whole well-formed frame addressed to us inside the payload
+            pl = bytes(rng.randrange(256) for _ in range(rng.choice([0, 1, 3]))) + \
+                fg.mk(rng.choice(codes), fg.salted_payload(rng, rng.choice([0, 2, 5])), rng.choice([86, 0]), rng.choice(KNOWN_SENDERS)) + \
+                bytes(rng.randrange(256) for _ in range(rng.choice([0, 1, 2])))
+        elif r < 0.6:   # the start delimiter at every place of a short body
+            n = rng.randint(1, 6)
+            pl = bytearray(rng.randrange(256) for _ in range(n))
+            pl[rng.randrange(n)] = 0x68
+            pl = bytes(pl)
+        else:
+            pl = bytes(rng.randrange(256) for _ in range(rng.choice([0, 0, 1, 2, rng.randint(0, 30)])))
+        return dict(code=rng.choice(codes),
+                    rc=rng.choice([86, 0]) if own else rng.choice([69, 81, 1, 0x68, rng.randrange(256)]),
+                    sd=rng.choice(KNOWN_SENDERS) if rng.random() < 0.9 else rng.randrange(256),
+                    et=rng.choice([48, 48, 0x68, rng.randrange(256)]), ev=rng.choice([5, 5, 0x68, rng.randrange(256)]), payload=pl.hex())
+
+    for _ in range(600 if quick else 25000):
+        k = rng.choice([2, 2, 3, 4, 6])
+        frames = [one(rng.random() < 0.55) for _ in range(k)]
+        if not any(f["rc"] not in (86, 0) for f in frames[:-1]):
+            frames[rng.randrange(k - 1)] = one(False)      # at least one foreign frame before the last frame
+        frames[-1] = one(True) if rng.random() < 0.8 else frames[-1]
+        yield dict(t="rtseq", frames=frames)
+
+
 def gen_wire(rng, tier):
     quick = tier == "quick"
     for _ in range(800 if quick else 30000):
@@ -305,6 +341,17 @@ def evaluate(cases, res):
             streams.append(bytes.fromhex(case["stream"]))
             impl[ci] = {}
             ask(ci, "read", "read " + hexs(streams[-1]))
+        elif t == "rtseq":
+            try:
+                built = [c02.impl_env(f) for f in case["frames"]]
+                parts = [f.bytes for f in built]
+            except Exception as e:  # noqa: BLE001 -- a frame built from a message must serialise
+                impl[ci] = dict(ser_err=type(e).__name__)
+                continue
+            impl[ci] = dict(built=built, parts=parts)
+            rt_idx.append(ci)
+            streams.append(b"".join(parts))
+            ask(ci, "read", "read " + hexs(streams[-1]))
         elif t in ("net", "ver"):
             o = dict(err=None)
             try:
@@ -469,10 +516,12 @@ def evaluate(cases, res):
         if any(a == "bad-op" for _, a in answers):
             res.fail("corr", pub, "model answers", answers, "driver rejected a request line")
             continue
-        if t == "rt" and "ser_err" in impl[ci]:
+        if t in ("rt", "rtseq") and "ser_err" in impl[ci]:
             res.fail("spec", pub, "serialised bytes", dict(raised=impl[ci]["ser_err"]), "serialising a frame built from its payload raised")
         elif t == "rt":
             compare_rt(pub, impl[ci], answers, res)
+        elif t == "rtseq":
+            compare_rtseq(pub, impl[ci], answers, res)
         elif t == "wire":
             compare_wire(pub, impl[ci], answers, res)
         elif t in ("net", "ver"):
@@ -541,6 +590,55 @@ def compare_rt(case, o, answers, res):
             return
     if _coarse(got) != _coarse(model[0]):
         res.fail("corr", case, list(model[0]), [str(x) for x in got], "read(encode f) differs between model and implementation")
+
+
+def compare_rtseq(case, o, answers, res):
+    """serialise several frames, read the bytes back: every frame addressed to the library / broadcast by a known device
+    comes back -- same kind, addressing, versions, payload, class, bytes, == -- in order, and nothing else is delivered,
+    whatever the frames for other devices in between carry"""
+    parts, built = o["parts"], o["built"]
+    want = []
+    for f, b, sent in zip(case["frames"], parts, built):
+        if f["rc"] in (86, 0) and f["sd"] in KNOWN_SENDERS and len(b) <= 1000:
+            want.append((f, b, sent))
+    outs = o["outs"]
+    got = [e for e in outs if e[0] == "D"]
+    res.count("rtseq:frames=%d,to-us=%d" % (len(parts), len(want)))
+    shown = [[e[0]] + ([str(x) for x in fi.fields_of(e[1])[:5]] + [hexs(fi.fields_of(e[1])[5])] if e[0] == "D" else [str(x) for x in e[1:]]) for e in outs]
+    exp = [[f["code"], f["rc"], f["sd"], f["et"], f["ev"], f["payload"] or "-"] for f, _, _ in want]
+    ok = len(got) == len(want)
+    if ok:
+        for e, (f, b, sent) in zip(got, want):
+            g = e[1]
+            if fi.fields_of(g) != (f["code"], f["rc"], f["sd"], f["et"], f["ev"], bytes.fromhex(f["payload"])):
+                ok = False
+                break
+    if not ok:
+        res.fail("spec", case, dict(delivered_in_order=exp), dict(calls=shown),
+                 "serialising frames one after the other and reading the bytes back does not yield exactly the frames addressed to the "
+                 "library / broadcast (same kind, addressing, versions, payload), in order: a frame for another device in between disturbs its successors")
+        return
+    for e, (f, b, sent) in zip(got, want):
+        g = e[1]
+        try:
+            again = g.bytes
+        except Exception as ex:  # noqa: BLE001
+            again = ("!" + type(ex).__name__).encode()
+        if type(g) is not fi.frame_class(f["code"]) or again != b or not (g == sent) or (g != sent):
+            res.fail("spec", case, dict(cls=fi.frame_class(f["code"]).__name__, bytes=b.hex(), equal_to_sent=True),
+                     dict(cls=type(g).__name__, bytes=again.hex(), equal_to_sent=bool(g == sent)),
+                     "a frame read back from a multi-frame stream is of another class, re-serialises to other bytes or is unequal to the frame sent")
+            return
+    model = reader.canon_model(reader.parse_model(dict(answers)["read"]))
+    canon = []
+    for e in outs:
+        if e[0] == "D":
+            fl = fi.fields_of(e[1])
+            canon.append(("D",) + tuple(fl[:5]) + (hexs(fl[5]), e[2]))
+        else:
+            canon.append(tuple(e))
+    if [_coarse(x) for x in canon] != [_coarse(x) for x in model]:
+        res.fail("corr", case, [list(x) for x in model], [list(map(str, x)) for x in canon], "reader model and FrameReader.read() differ on a multi-frame stream")
 
 
 def compare_wire(case, o, answers, res):
@@ -677,7 +775,8 @@ def run(ctx):
     res = Result("C03")
     tier = ctx["tier"]
     res.rule = ("round trips: frames of all 33 kinds built from (addresses, versions, payload) -> .bytes (+ trailing bytes) -> "
-                "FrameReader.read -> fields, class, .bytes, == ; wire frames with arbitrary last byte -> read -> .bytes; "
+                "FrameReader.read -> fields, class, .bytes, == ; 2-6 frames serialised one after the other, frames for other devices (bodies with start delimiters / "
+                "embedded whole frames) in between -> read all -> exactly the frames addressed to us, in order; wire frames with arbitrary last byte -> read -> .bytes; "
                 "network-info and version data -> message -> data incl. all flag combinations, encryption 0..4, every signal byte, "
                 "SSIDs up to 255 bytes incl. non-ASCII; mutated / truncated / random messages through both decoders; "
                 "frame pairs identical or differing in exactly one of kind, recipient, sender, econet type, version, message, data, "
@@ -690,6 +789,7 @@ def run(ctx):
         (corpus_scenarios if c.get("t") == "frame_reuse" else cases).append(c)
     cases.extend(gen_rt(rng, tier, kinds))
     cases.extend(gen_wire(rng, tier))
+    cases.extend(gen_rtseq(random.Random(ctx["seed"] * 7919 + 33), tier, kinds))
     nets = list(c02.gen_net(rng, tier))
     vers = list(c02.gen_ver(rng, tier))
     cases.extend(nets)
